@@ -624,5 +624,42 @@ def mon_C17(ops, results):
     return out
 
 
-MONITORS = {"C01": mon_C01, "C02": mon_C02, "C05": mon_C05, "C06": mon_C06, "C07": mon_C07, "C08": mon_C08, "C09": mon_C09,
+def mon_C04(ops, results):
+    """every CAS stamped on a successful regular mutation (and every draw of another bucket) exceeds every CAS handed out before,
+    also across a restart; the persisted high-water mark covers every committed CAS."""
+    out, high, high_bucket = [], 0, 0
+    for i, name, pos, args, res, last, feeds in Trace(ops, results).steps():
+        rf = res_fields(res)
+        if name == "restart":
+            high = high_bucket   # a new process: only what this bucket committed constrains the clock
+        if name == "draw":
+            c = int(rf.get("cas", "0"))
+            if c <= high:
+                out.append(viol("C04.strictly-increasing", i, "draw returned %d after %d had been handed out" % (c, high)))
+            high = max(high, c)
+        elif name in MUTATORS and name not in ("touch", "gat", "swm", "dwm") and len(pos) >= 2 and succeeded(name, rf):
+            rbs, _ = following(ops, results, i)
+            after = rbs.get((pos[0], pos[1]))
+            if after is None or absent(after):
+                continue
+            c = int(after.get("row.cas", "0"))
+            if c <= high:
+                out.append(viol("C04.strictly-increasing", i, "%s stamped CAS %d; %d had already been handed out" % (name, c, high)))
+            if "cas" in rf and name != "update" and int(rf["cas"]) != c:
+                out.append(viol("C04.stamped-with-drawn-cas", i, "%s returned %s but stored %d" % (name, rf["cas"], c)))
+            high = max(high, c)
+            high_bucket = max(high_bucket, c)
+        elif name == "lastcas":
+            b, h = int(rf.get("bucket", "0")), int(rf.get("hlc", "0"))
+            if b > h:
+                out.append(viol("C04.high-water-mark", i, "bucket.lastCas %d exceeds the clock %d" % (b, h)))
+        elif name == "restart":
+            h = int(rf.get("hlc", "0"))
+            committed = [int(rb_fields(r).get("row.cas", "0")) for o, r in zip(ops[:i], results[:i]) if o.startswith("rb ") and r.startswith("row=1")]
+            if committed and not any(o.startswith(("swm", "dwm")) for o in ops) and h < max(committed):
+                out.append(viol("C04.reopen-seeds-clock", i, "after reopen the clock is at %d, below a committed CAS %d" % (h, max(committed))))
+    return out
+
+
+MONITORS = {"C04": mon_C04, "C01": mon_C01, "C02": mon_C02, "C05": mon_C05, "C06": mon_C06, "C07": mon_C07, "C08": mon_C08, "C09": mon_C09,
             "C11": mon_C11, "C17": mon_C17}
